@@ -121,6 +121,10 @@ func runC19(p *eng.Prog, r *eng.Report, tier string) {
 	c.r.Floor("C19.20", "character-data assertions in the payload decoders", nEC, 1)
 	nAM := attrMarshalersByValue(c, "C19.19", c19Pkgs)
 	c.r.Floor("C19.19", "attribute fields with their own marshaler", nAM, 3)
+	nFI := formattedIntsKeepTheirRange(c, "C19.27", inC19)
+	c.r.Floor("C19.27", "integers formatted in the payload packages", nFI, 5)
+	nLD := lossyDecodeStores(c, "C19.26", inC19)
+	c.r.Floor("C19.26", "stores of the payload decoders", nLD, 50)
 	c19MultiValueTypes(c, "C19.25")
 	nZM := zeroValueMapStores(c, "C19.24", inC19)
 	c.r.Floor("C19.24", "stores into map fields of exported receivers", nZM, 1)
